@@ -724,15 +724,15 @@ def gen_record(repo):
         return strlist(names)
 
     def init_order(cls):
-        """fields the dataclass-generated __init__ assigns, in order: init=True fields, and init=False
-        fields that have a default"""
+        """fields the dataclass-generated __init__ assigns, in order: the init=True fields"""
         out = []
         for st in cls.body:
             if isinstance(st, ast.AnnAssign) and isinstance(st.target, ast.Name):
                 v = st.value
                 if isinstance(v, ast.Call) and unparse(v.func) == "field":
                     kws = {k.arg: unparse(k.value) for k in v.keywords}
-                    if kws.get("init") == "False" and "default" not in kws:
+                    if kws.get("init") == "False":
+                        # not assigned by __init__ (a default, if any, stays a class attribute)
                         continue
                 out.append(st.target.id)
         return strlist(out)
